@@ -1,5 +1,5 @@
 Require Extraction.
 Require Import ExtrOcamlBasic.
-From SCMO Require Import Lib.Val Model.C19.
-Definition run := run_C19.
+From SCMO Require Import Lib.Val Model.C19 Model.C19x.
+Definition run := run_C19x.
 Extraction "c19_model.ml" run.
